@@ -275,7 +275,7 @@ def check_rand(c):
             if res.check(ok, 'rand_custom.profile', case, 'rank profile'):
                 E = _flat_cut(np.arange(tot, dtype=float), n, r)
                 res.check(all(np.array_equal(x, y) for x, y in zip(Y, E)), 'rand_custom.cut', case, 'cores are not the Fortran-ordered cut of f(size)')
-            for noise in (1e-15, 1e-3):
+            for noise in (0., 1e-300, 1e-15, 1e-3):
                 res.ev()
                 Y = teneva.rand_stab(n, rr, noise, seed=sd)
                 ok = ref.wellformed(Y, n) is None and [G.shape[2] for G in Y] == r[1:]
